@@ -338,7 +338,7 @@ _ADDED = {
  "C08": " Also every genealogy with all times shifted (youngest sample not at 0) and, on the JSON-built models, histories that replace growth / grid / theta in turn on one model object. Models built from times / events are evaluated, and a batch of two genealogies with different sampling times goes through the distribution the model hands out.",
  "C10": " Every density is additionally evaluated as the only component of a JointDistributionModel built at evaluation time. The slices of a batched tree interleave sampling and coalescent events differently.",
  "C12": " Every gradient is read again after the histories the optimisation loop produces (no_grad evaluation, notification, backward; notification and backward again at the same values).",
- "C13": " Well-formed documents are loaded through the real torchtree.torchtree.main() (--dry, document on stdin). Decorations include one parameter in single precision (a document that mixes floating dtypes).",
+ "C13": " Well-formed documents are loaded through the real torchtree.torchtree.main() (--dry, document on stdin). Decorations include one parameter in single precision (a document that mixes floating dtypes). Plate variants write references as ranges with missing members and as empty ranges (ill-formed).",
  "C15": " The acceptance probability handed to the tuner is compared with the one computed from the from-scratch densities; targets include a window that leaves the support and a block-HMC target with an independent reversal test. A target with HMC on a positive parameter without a transform exercises the retry path of the operator.",
  "C16": " Block histories: one integrator and one joint, a block integrated twice with the other blocks moved in between, compared with a freshly built integrator. Operator scenarios include a state loaded from the checkpoint of an operator with another mass matrix.",
  "C18": " Drivers include the real Optimizer.run / MCMC.run loops (one iteration that leaves the parameters in place) and checkpoint_all starting from an existing plain checkpoint. Crash modes include death by KeyboardInterrupt (the writer's clean-up code still runs); versions alternate in length.",
